@@ -29,7 +29,7 @@ def specs(tier):
             spec('q-D2', 'D2', 'development/4.3', 'development/5.1', depth=7,
                  statuses_q=['SUCCESSFUL', 'FAILED']),
             spec('skipq-D2-bypass', 'D2', 'development/4.3',
-                 'development/4.3', skip=True, depth=5, comments=bypass,
+                 'development/4.3', skip=True, depth=4, comments=bypass,
                  statuses_q=['SUCCESSFUL', 'INPROGRESS'], stale=True),
             spec('skipq-D2-diff', 'D2', 'development/4.3',
                  'development/5.1', skip=True, depth=5,
